@@ -26,13 +26,19 @@
 (*  8 d2q  ?: above, left of, right of each binary operator; nested ?:      *)
 (*  9 d2b  two arithmetic operators over boundary values (intermediate      *)
 (*                     overflow)                                            *)
+(* 10 tok  ALL token sequences of length <= NT over the 37 operator lexemes *)
+(*                     and two operands, joined by spaces: if the C grammar *)
+(*                     (Arith!Parse) accepts the sequence the outcome is    *)
+(*                     that of the parsed tree, otherwise anything but a    *)
+(*                     crash                                                *)
 (***************************************************************************)
 EXTENDS Arith, TLC, Json
 
 CONSTANTS
   Families,    \* set of family numbers to generate
   NL,          \* number of leaves used by family 6 (d2): 2..5
-  NB2          \* number of boundary values used by family 9 (d2b)
+  NB2,         \* number of boundary values used by family 9 (d2b)
+  NT           \* maximal number of tokens in family 10 (tok)
 
 VARIABLE c
 
@@ -67,7 +73,7 @@ Lit(v, rsel) ==
 Env3(vx, vy, vz) == [n \in {"x", "y", "z"} |-> IF n = "x" THEN vx ELSE IF n = "y" THEN vy ELSE vz]
 MinCell == NumCell(Min64)
 
-Mode(k) == IF k % 2 = 0 THEN "s" ELSE "t"
+Mode(k) == IF k % 3 = 0 THEN "s" ELSE IF k % 3 = 1 THEN "t" ELSE "w"
 RECURSIVE SumFrom(_, _)
 SumFrom(s, i) == IF i > Len(s) THEN 0 ELSE s[i] + SumFrom(s, i + 1)
 Sum(s) == SumFrom(s, 1)
@@ -103,6 +109,19 @@ VE == << X, Bin("+", X, C(1)), Bin("*", X, C(2)), Pre("-", X), Post("++", X), Pr
 DollarOK(i, j) == ConstMag(IF Len(VS[i]) >= 1 /\ VS[i][1] \in {"+", "-"} THEN SubSeq(VS[i], 2, Len(VS[i])) ELSE VS[i]).ok
                   /\ "x" \notin Writes(VE[j])
 
+\* family 10: the token alphabet (every operator lexeme of the language, "(" ")", two operands)
+TA == << "?", ":", "|=", "||", "|", "^=", "^", "&=", "&&", "&", "==", "=", "!=", "<=", "<<=", "<<", "<", ">=", ">>=", ">>",
+         ">", "+=", "++", "+", "-=", "--", "-", "*=", "*", "/=", "/", "%=", "%", "~", "!", "(", ")", "1", "x" >>
+TokEnv == Env3(NumCell(FromInt(5)), Unset, Unset)
+\* the tree of a parse result (operand tokens become constants and variables)
+RECURSIVE FromSkeleton(_)
+FromSkeleton(e) ==
+  CASE e.k = "t" -> IF e.t = "1" THEN C(1) ELSE Var(e.t)
+    [] e.k = "u" -> Pre(e.op, FromSkeleton(e.a))
+    [] e.k = "p" -> Post(e.op, FromSkeleton(e.a))
+    [] e.k = "b" -> Bin(e.op, FromSkeleton(e.l), FromSkeleton(e.r))
+    [] e.k = "q" -> Cond(FromSkeleton(e.c), FromSkeleton(e.t), FromSkeleton(e.e))
+
 \* families 6-8: leaves; environment x = 7, y = -3, z unset
 Leaf == << X, Y, C(2), C(3), Var("z") >>
 D2Env == Env3(NumCell(FromInt(7)), NumCell(FromInt(-3)), Unset)
@@ -122,12 +141,13 @@ DomAt(s) ==
        [] f = 5 -> IF k = 1 THEN 1..Len(VS) ELSE IF k = 2 THEN 1..Len(VE)
                    ELSE IF k = 3 THEN (IF DollarOK(s[2], s[3]) THEN 1..2 ELSE {1}) ELSE {}
        [] f = 6 -> IF k = 1 THEN 1..2 ELSE IF k \in {2, 3} THEN 1..Len(AllBin) ELSE IF k \in {4, 5, 6} THEN 1..NL ELSE {}
-       [] f = 7 -> IF k = 1 THEN 1..6 ELSE IF k = 2 THEN 1..8
-                   ELSE IF k = 3 THEN (IF s[2] <= 3 THEN 1..Len(AllBin) ELSE 1..8)
+       [] f = 7 -> IF k = 1 THEN 1..8 ELSE IF k = 2 THEN 1..8
+                   ELSE IF k = 3 THEN (IF s[2] <= 3 \/ s[2] = 8 THEN 1..Len(AllBin) ELSE 1..8)
                    ELSE IF k \in {4, 5} THEN 1..3 ELSE {}
        [] f = 8 -> IF k = 1 THEN 1..6 ELSE IF k = 2 THEN (IF s[2] <= 3 THEN 1..Len(AllBin) ELSE {1})
                    ELSE IF k \in {3, 4, 5, 6} THEN 1..3 ELSE {}
        [] f = 9 -> IF k = 1 THEN 1..2 ELSE IF k \in {2, 3} THEN 1..12 ELSE IF k \in {4, 5, 6} THEN 1..NB2 ELSE {}
+       [] f = 10 -> IF k = 1 THEN 1..NT ELSE IF k <= s[2] + 1 THEN 1..Len(TA) ELSE {}
 
 Complete(s) == Len(s) >= 1 /\ DomAt(s) = {}
 
@@ -177,6 +197,9 @@ Case(s) ==
                        [] s[2] = 4 -> UnOp(s[3], UnOp(s[4], A))
                        [] s[2] = 5 -> UnOp(s[3], UnOp(s[4], UnOp(s[3], B)))
                        [] s[2] = 6 -> Bin("-", UnOp(s[3], A), UnOp(s[4], B))
+                       \* redundant parentheses: ( A ) as operand and as lvalue
+                       [] s[2] = 7 -> UnOp(s[3], Group(UnOp(s[4], Group(A))))
+                       [] s[2] = 8 -> Bin(AllBin[s[4]], Group(A), UnOp(s[3], Group(Group(B))))
             IN [e |-> e, env |-> D2Env, sp |-> sp]
        [] f = 8 ->
             LET o == AllBin[s[3]]
@@ -188,6 +211,11 @@ Case(s) ==
                        [] s[2] = 5 -> Cond(A, Cond(B, D, F), C(9))
                        [] s[2] = 6 -> Cond(A, C(9), Cond(B, D, F))
             IN [e |-> e, env |-> D2Env, sp |-> sp]
+       [] f = 10 ->
+            LET ts == [i \in 1..s[2] |-> TA[s[i + 2]]]
+                pr == Parse(ts)
+            IN [e |-> IF pr.ok THEN FromSkeleton(pr.e) ELSE C(0), env |-> TokEnv, sp |-> "s",
+                parsed |-> pr.ok, text |-> JoinFrom(ts, 1, "s")]
        [] f = 9 ->
             LET o1 == D2bOps[s[3]]  o2 == D2bOps[s[4]]
             IN [e |-> IF s[2] = 1 THEN Bin(o1, Bin(o2, X, Y), Var("z")) ELSE Bin(o1, X, Bin(o2, Y, Var("z"))),
@@ -205,12 +233,13 @@ OutJson(o)   == [t |-> o.t, v |-> Str(DecChars(o.v)), c |-> o.c, env |-> EnvJson
 \*  - Parse(Toks(e)) = e: the parentheses printed are exactly those the C grammar needs.
 Line(s) ==
   LET k == Case(s)
-      S == Allowed(k.e, k.env)
+      tok == s[1] = 10
+      S == IF tok /\ ~k.parsed THEN {U(k.env)} ELSE Allowed(k.e, k.env)
       pr == Parse(Toks(k.e))
       sane == /\ \A o \in S : o.t = "v" => InRange64(o.v) /\ IsNum(o.v)
               /\ pr.ok /\ pr.e = Skeleton(k.e)
   IN IF ~sane THEN [sane |-> FALSE]
-     ELSE [sane |-> TRUE, id |-> s, text |-> Text(k.e, k.sp), env |-> EnvJson(k.env),
+     ELSE [sane |-> TRUE, id |-> s, text |-> IF tok THEN k.text ELSE Text(k.e, k.sp), env |-> EnvJson(k.env),
            \* family 5 form 2: the text as it is written in the shell
            dtext |-> IF s[1] = 5 /\ s[4] = 2 THEN Text(Subst(VE[s[3]], "x", Var("$x")), "s") ELSE "",
            allowed |-> {OutJson(o) : o \in S},
